@@ -62,6 +62,9 @@ func main() {
 		runScript(w, *in, *from, *runs, *pair)
 	case "quorum":
 		runQuorum(w, *full, *lo, *hi)
+		if *lo == 1 {
+			runQuorumSeq(w)
+		}
 	case "open":
 		for r := *from; r < *from+*runs; r++ {
 			runOpen(w, *seed, r, *steps)
